@@ -20,6 +20,14 @@ E3 history layers: sequences of comparisons on ONE ReferenceTest /
 PandasComparison object (state = the history, rebuilt from a fresh object each
 time); every verdict must equal the model's and that of the same comparison on
 a fresh object, i.e. nothing given to one call may leak into a later one.
+
+Round 3: `L1-type-pairs` (every pair of dtype points in BOTH directions on
+columns whose values agree or are unchecked, under every type_matching level,
+with the symmetry clause); `H2-shared-frames` (two comparisons that are given
+the SAME DataFrame objects); and, on every case of every layer, the clause
+"a comparison does not change the caller's frames" (columns, dtypes, rows and
+values; the row ORDER only when no sortby was given - in-place sorting of the
+caller's frames is a declared gray zone).
 """
 import contextlib
 import io
@@ -220,8 +228,12 @@ def gen_cases(tier, layer):
         for fr in A.triple_frames(2, A.COVER_TRIPLES):
             for d in A.structural_devs(fr):
                 if d[0] in ('swap', 'delcol', 'rename', 'extracol'):
+                    # absent / renamed column: full product of the three
+                    # per-kind selections (excluded from some kinds of check
+                    # and not from others)
+                    deep = th or d[0] in ('delcol', 'rename')
                     yield {'e': 'chk', 'f': fr, 'd': [d],
-                           'os': 'rel3' if th else 'rel'}
+                           'os': 'rel3' if deep else 'rel'}
                     yield {'e': 'mem', 'f': fr, 'd': [d], 'os': 'default'}
     elif layer == 'L1-files':
         nv = 2
@@ -319,6 +331,19 @@ def gen_cases(tier, layer):
             for e in (entries if th else ('chk',)):
                 yield {'e': e, 'f': A.PAIR_REFS[refname], 'd': devs,
                        'os': 'neut', 'menu': menu}
+    elif layer == 'L1-type-pairs':
+        for (x, y) in A.type_pairs():
+            for var in A.TP_VARIANTS:
+                if A.tp_frames(x, y, var) is None:
+                    continue
+                yield {'k': 'tpair', 'e': 'chk', 'x': x, 'y': y, 'var': var}
+                if var != 'empty':
+                    yield {'k': 'tpair', 'e': 'mem', 'x': x, 'y': y,
+                           'var': var}
+    elif layer == 'H2-shared-frames':
+        for pair in A.SHARED_PAIR_ORDER:
+            for i in range(len(A.shared_menu(pair))):
+                yield {'k': 'shared', 'pair': pair, 'first': i}
     elif layer == 'H2-histories':
         for i in range(len(A.hist_menu('full'))):
             yield {'k': 'hist', 'menu': 'full', 'prefix': [i]}
@@ -371,6 +396,26 @@ class C05(Check):
             'PandasComparison object, rebuilt from a fresh object per '
             'history, each verdict compared with the model and with the same '
             'comparison on a fresh object; '
+            'L1-type-pairs: every unordered pair of 18 dtype points (numpy '
+            'and nullable int / float / bool, object holding text / ints / '
+            'floats / bools, str, string, category, datetime ns / us) on '
+            'columns that are empty, all null, or hold agreeing (else '
+            'unchecked) values, evaluated in BOTH directions at every '
+            'type_matching level x check_types form x check_data on/off: '
+            'model verdict per direction, and where the model leaves a '
+            'direction open the two directions must agree (same column '
+            'names on both sides, so every condition of the statement is a '
+            'symmetric relation); '
+            'H2-shared-frames: every sequence of two comparisons from 4 entry '
+            'points x 8 option points (conditions all / value-based / '
+            'positional / none, sortby, check_data off) that are given the '
+            'SAME DataFrame objects (6 frame pairs, one of them a single '
+            'object as actual and expected): verdict = model on the frames '
+            'as built = verdict on freshly built frames; '
+            'on every comparison of every non-history layer and of '
+            'H2-shared-frames the frames that were passed must hold the same '
+            'columns, dtypes, rows and values afterwards (rows as a multiset '
+            'when sortby was given); '
             'non-trivial = the model gives a definite verdict for at least '
             'one option point and the frames have at least one cell or one '
             'deviation')
@@ -389,8 +434,21 @@ class C05(Check):
         'where nulls sort; sortby/condition on a column missing from the '
         'actual frame that is not selected for type or data checks; frames '
         'with no columns',
-        'in-place sorting of the caller\'s frames is not checked (fresh '
-        'frames are passed to every call)',
+        'in-place sorting of the caller\'s frames (a permutation of their '
+        'rows when sortby is given) is a gray zone: tolerated by the '
+        'frames-unchanged clause, and in H2-shared-frames the verdicts that '
+        'follow a comparison with sortby are not judged; any other change '
+        'of a frame that was passed (rows lost, values, dtypes, columns) is '
+        'a violation because it changes the verdict of a later comparison '
+        'of the same objects; index labels are not looked at',
+        'type matching: besides the clear-cut pairs, a numeric / boolean '
+        'column (numpy or nullable) never matches a str / string / datetime '
+        'column at any level; every other cross-family pair is decided only '
+        'through the symmetry clause',
+        'a reference column that the actual frame lacks and that is selected '
+        'for neither the type nor the data check does not make the '
+        'comparison fail, whether or not check_order names it (documented: '
+        'check_order restricts the fields whose RELATIVE order is compared)',
         'CSV references only for int64/float64/str frames without empty '
         'strings',
         'histories: the verdict of a comparison is taken to be a function of '
@@ -416,9 +474,23 @@ class C05(Check):
                   'condition with excluded rows on one side only, precision, '
                   'check_* selections, type_matching): full product of the '
                   'neutralising menus; passes iff every option is honoured'))
+        L.append(('L1-type-pairs', 'every pair of dtype points (18: numpy / '
+                  'nullable int, float, bool; object holding text, ints, '
+                  'floats, bools; str, string, category; datetime ns / us) as '
+                  '(actual, expected) AND (expected, actual), on columns '
+                  'that are empty, all null, or hold agreeing / unchecked '
+                  'values, x every type_matching level x every check_types '
+                  'form x check_data on / off: model verdict in each '
+                  'direction + the two directions must agree'))
         L.append(('H2-histories', 'E3: every sequence of two comparisons from '
                   'the history menu on one ReferenceTest / PandasComparison '
                   'object; each verdict = model = verdict on a fresh object'))
+        L.append(('H2-shared-frames', 'E3: every sequence of two comparisons '
+                  '(4 entry points x 8 option points incl. four conditions '
+                  'and sortby) that are given the SAME DataFrame objects, '
+                  'incl. one object as both actual and expected: each '
+                  'verdict = model on the frames as the caller built them, '
+                  'and the frames are unchanged after every comparison'))
         if tier == 'thorough':
             L.append(('L2-two-deviations', 'two deviations, in-memory entry '
                       'points'))
@@ -434,6 +506,9 @@ class C05(Check):
                 'history_depth': {'quick': 2, 'thorough': 3},
                 'history_menu_ops': {'full': len(A.hist_menu('full')),
                                      'reduced': len(A.hist_menu('reduced'))},
+                'type_points': list(A.TYPE_POINTS),
+                'shared_frame_ops': len(A.shared_menu('copy')),
+                'shared_frame_pairs': list(A.SHARED_PAIR_ORDER),
                 'entry_points': [ENTRY_NAMES[e] for e in sorted(ENTRY)]}
 
     # ------------------------------------------------------------- worker
@@ -479,7 +554,7 @@ class C05(Check):
                 [np.nan if v is None else v for v in vals], dtype=label))
         if label == 'object':
             return pd.Series(list(vals), dtype=object)
-        if label in ('str', 'string', 'Int64', 'Int32', 'boolean'):
+        if label in ('str', 'string', 'Int64', 'Int32', 'Float64', 'boolean'):
             return pd.Series(pd.array(list(vals), dtype=label))
         if label == 'category':
             return pd.Series(pd.Categorical(list(vals)))
@@ -716,6 +791,10 @@ class C05(Check):
     def run_case(self, case):
         if case.get('k') == 'hist':
             return self.run_history_case(case)
+        if case.get('k') == 'tpair':
+            return self.run_type_pair_case(case)
+        if case.get('k') == 'shared':
+            return self.run_shared_case(case)
         R = Res()
         entry, frame, devs = case['e'], case['f'], case['d']
         P, skip, unspec = self.prepare(entry, frame, devs)
@@ -751,6 +830,8 @@ class C05(Check):
             R.ev()
             R.out('%s:%s:%s[%s]->%s' % (entry, devk, want, '+'.join(why),
                                         got))
+            self.unchanged(R, entry, opts, P['act_df'], a, P['ref_df'], r,
+                           opts['sort'] is not None, sub)
             if want == M.UNSPEC:
                 R.unspec += 1
                 continue
@@ -758,6 +839,239 @@ class C05(Check):
                 R.nontrivial = True
             self.judge(R, entry, P, devs, devk, label, opts, want, why, got,
                        msg, tb, sub)
+        return R
+
+    # ------------------------------------- the caller's frames are not changed
+
+    def frame_change(self, orig, now, permuted_ok):
+        """None, or what a comparison changed in a frame it was given
+        (index labels are not looked at; the row order only when the call
+        was not asked to sort)."""
+        if now is orig:
+            return None
+        if not permuted_ok and now.equals(orig):
+            return None
+        if list(now.columns) != list(orig.columns):
+            return 'columns'
+        if [str(t) for t in now.dtypes] != [str(t) for t in orig.dtypes]:
+            return 'dtypes'
+        if len(now) != len(orig):
+            return 'rows-lost' if len(now) < len(orig) else 'rows-added'
+        if not permuted_ok:
+            for c in list(orig.columns):
+                if not now[c].array.equals(orig[c].array):
+                    return 'values-or-row-order'
+            return None
+        so, sn = self.spec_of(orig), self.spec_of(now)
+        if so is None or sn is None:
+            return None
+        ro = sorted(zip(*[c[2] for c in so]), key=repr)
+        rn = sorted(zip(*[c[2] for c in sn]), key=repr)
+        return None if ro == rn else 'values'
+
+    def unchanged(self, R, entry, opts, a0, a1, r0, r1, permuted_ok, sub):
+        """Clause: a comparison leaves the frames it was given as they were
+        (otherwise the verdict of a later comparison of the same objects is
+        no longer that of the frames the caller built).  a0 / r0 = pristine
+        copies, a1 / r1 = the objects that were passed.  -> True if changed."""
+        E = ENTRY[entry]
+        sides = []
+        if not E['afile']:
+            sides.append(('actual', a0, a1))
+        if E['fmt'] is None:
+            sides.append(('expected', r0, r1))
+        changed = False
+        for (side, f0, f1) in sides:
+            ch = self.frame_change(f0, f1, permuted_ok)
+            if ch is None:
+                continue
+            changed = True
+            which = '+'.join(d for d in ('sort', 'cond')
+                             if opts[d] is not None) or 'no-sort-no-condition'
+            R.viol('caller-frame-modified:%s:%s' % (ch, which),
+                   'comparison-does-not-change-the-callers-frames',
+                   {'entry': entry, 'side': side, 'options': opts,
+                    'change': ch, 'before': self.spec_of(f0),
+                    'after': self.spec_of(f1)}, sub)
+        return changed
+
+    # ------------------------------------------------- type pairs (both ways)
+
+    @staticmethod
+    def type_class(tp):
+        if A.tp_label(tp) == 'object':
+            return 'object'
+        k = A.tp_kind(tp)
+        return 'number' if k in ('int', 'float', 'bool') else \
+            '%s(%s)' % (k, A.tp_family(tp))
+
+    def run_type_pair_case(self, case):
+        """One unordered pair of type points, one value variant: every
+        option point in BOTH directions.  Oracle: the model in each
+        direction; and, the frames having the same column names, the two
+        directions must agree (every condition of the statement is a
+        symmetric relation then)."""
+        R = Res()
+        entry, x, y, var = case['e'], case['x'], case['y'], case['var']
+        fx, fy, agree = A.tp_frames(x, y, var)
+        dfx, dfy = self.build(fx), self.build(fy)
+        names = [c[0] for c in fx]
+        dirs = [(x, y, fx, fy, dfx, dfy)]
+        if x != y:
+            dirs.append((y, x, fy, fx, dfy, dfx))
+        for opts in A.tp_points(agree, entry):
+            sub = opt_key(opts)
+            seen = []
+            for (ta, tr, act, ref, adf, rdf) in dirs:
+                want, why = M.verdict(act, ref, opts)
+                a = adf.copy(deep=True)
+                r = rdf.copy(deep=True)
+                got, msg, tb = self.call(entry, a, r, opts, names, names, {})
+                R.ev()
+                R.out('%s:typepair:%s:%s[%s]->%s' % (
+                    entry, var, want, '+'.join(why), got))
+                self.unchanged(R, entry, opts, adf, a, rdf, r, False, sub)
+                seen.append((ta, tr, want, got))
+                if want == M.UNSPEC:
+                    R.unspec += 1
+                    continue
+                R.nontrivial = True
+                label = 'actual=%s,expected=%s,tm=%s' % (
+                    self.type_class(ta), self.type_class(tr), opts['tm'])
+                P = {'ref_spec': ref, 'act_spec': act}
+                self.judge(R, entry, P, [['typepair', ta, tr, var]],
+                           'typepair-' + var, label, opts, want, why, got,
+                           msg, tb, sub + '|' + ta + '<-' + tr)
+            if len(seen) != 2 or not M.symmetric_point(fx, fy, opts):
+                continue
+            (ta, tr, w1, g1), (_, _, w2, g2) = seen
+            if w1 != M.UNSPEC and w2 != M.UNSPEC:
+                continue        # both directions already judged by the model
+            R.nontrivial = True
+            if (g1 == 'pass') != (g2 == 'pass'):
+                pa, pr = (ta, tr) if g1 == 'pass' else (tr, ta)
+                R.viol('asymmetric:passes-only-as[actual=%s,expected=%s]:'
+                       'tm=%s:%s' % (self.type_class(pa), self.type_class(pr),
+                                     opts['tm'], entry),
+                       'same-types-at-the-level-is-symmetric',
+                       {'entry': entry, 'options': opts, 'variant': var,
+                        'frame_x': fx, 'frame_y': fy,
+                        'actual=x,expected=y': g1, 'actual=y,expected=x': g2,
+                        'model': [w1, w2]}, sub + '|sym')
+        return R
+
+    # -------------------------------------- shared frame objects (E3, depth 2)
+
+    def shared_refs(self):
+        """Reference files of the shared-frames layer (once per worker):
+        entry -> (paths, spec of what pandas reads back)."""
+        if getattr(self, '_shared_refs', None) is None:
+            out = {}
+            for (e, fmt, ext) in (('pq', 'parquet', '.parquet'),
+                                  ('csv', 'csv', '.csv')):
+                path = os.path.join(self.sandbox, 'shared_ref' + ext)
+                back = self.write_read(self.build(A.SHARED_REF), fmt, path)
+                spec = self.spec_of(back)
+                if spec is None:
+                    raise RuntimeError('shared reference outside the model')
+                out[e] = ({'ref': path}, spec)
+            self._shared_refs = out
+            self._shared_fresh = {}
+        return self._shared_refs
+
+    def run_shared_case(self, case):
+        """Every history [first, j] of two comparisons that are given the
+        SAME DataFrame objects (built once per history).  Each verdict must
+        be the model's for the frames as the caller built them and equal to
+        that of the same comparison on freshly built frames; after every
+        comparison the frames must be what they were.  After a comparison
+        with sortby the caller's rows may have been permuted (declared gray
+        zone): later verdicts of that history are not judged and the frames
+        are compared as multisets of rows."""
+        R = Res()
+        R.states = 0
+        pair = case['pair']
+        menu = A.shared_menu(pair)
+        refs = self.shared_refs()
+        ref_spec = A.SHARED_REF
+        act_spec = ref_spec
+        for d in A.SHARED_PAIRS[pair]:
+            act_spec = A.apply_dev(act_spec, d)
+        anames = [c[0] for c in act_spec]
+        rnames = [c[0] for c in ref_spec]
+        a0, r0 = self.build(act_spec), self.build(ref_spec)
+
+        def frames():
+            adf = self.build(act_spec)
+            return adf, (adf if pair == 'self' else self.build(ref_spec))
+
+        def spec_paths(entry):
+            if entry in refs:
+                return refs[entry][1], refs[entry][0]
+            return ref_spec, {}
+
+        for j in range(len(menu)):
+            hist = [case['first'], j]
+            adf, rdf = frames()
+            R.states += 1
+            sorted_before, changed, earlier = False, False, set()
+            for pos, i in enumerate(hist):
+                entry, opts = menu[i]
+                rspec, paths = spec_paths(entry)
+                want, why = M.verdict(act_spec, rspec, opts)
+                fkey = (pair, i)
+                if fkey not in self._shared_fresh:
+                    fa, fr = frames()
+                    self._shared_fresh[fkey] = self.call(
+                        entry, fa, fr, opts, anames, rnames, paths)[0]
+                    R.ev()
+                fresh = self._shared_fresh[fkey]
+                got, msg, tb = self.call(entry, adf, rdf, opts, anames,
+                                         rnames, paths)
+                R.ev()
+                sub = {'pair': pair, 'position': pos,
+                       'history': [[menu[h][0], opt_key(menu[h][1])]
+                                   for h in hist]}
+                last = pos == len(hist) - 1
+                if last:
+                    R.out('shared:%s:%s:%s[%s]->%s/fresh=%s%s' % (
+                        entry, pair, want, '+'.join(why), got[:40],
+                        fresh[:40], '/after-sort' if sorted_before else ''))
+                if sorted_before:
+                    R.unspec += 1 if last else 0
+                elif got != fresh and pos > 0:
+                    R.nontrivial = True
+                    what = 'internal' if got.startswith('error:') else \
+                        ('missed' if got == 'pass' else 'spurious')
+                    R.viol('shared-frames:%s:after[%s]'
+                           % (what, '+'.join(sorted(earlier)) or 'default'),
+                           'verdict-is-that-of-the-frames-the-caller-built',
+                           {'pair': pair, 'history': sub['history'],
+                            'position': pos, 'entry': entry,
+                            'reference': rspec, 'actual': act_spec,
+                            'options': opts, 'on_fresh_frames': fresh,
+                            'on_shared_frames': got, 'model': [want, why],
+                            'message': (msg or '')[:300], 'traceback': tb},
+                           sub)
+                elif want != M.UNSPEC:
+                    R.nontrivial = True
+                    if last:
+                        P = {'ref_spec': rspec, 'act_spec': act_spec}
+                        self.judge(R, entry, P, A.SHARED_PAIRS[pair],
+                                   'shared-' + pair, 'shared', opts, want,
+                                   why, got, msg, tb, sub)
+                else:
+                    R.unspec += 1 if last else 0
+                if opts['sort'] is not None:
+                    sorted_before = True
+                if not changed:
+                    changed = self.unchanged(
+                        R, entry, opts, a0, adf,
+                        a0 if pair == 'self' else r0, rdf, sorted_before,
+                        sub)
+                for d in A.DIMS:
+                    if opts[d] != A.DEFAULT_OPTS[d]:
+                        earlier.add(d)
         return R
 
     # ------------------------------------------------------ histories (E3)
